@@ -30,13 +30,13 @@ TailKinds == {"MessageIntegrity", "MessageIntegritySha256", "Fingerprint"}
 HasKind(o, k) == \E i \in DOMAIN o.attrs : o.attrs[i].kind = k
 \* encoder side of C04: MAC = reference HMAC over the RFC input under the RFC key; validates
 OkC04(o) ==
-    (o.enc = "ok" /\ ~o.big) =>
+    (o.enc = "ok") =>
         /\ HasKind(o, "MessageIntegrity") => ("MessageIntegrity" \in DOMAIN o.ref_ok /\ o.ref_ok.MessageIntegrity)
         /\ HasKind(o, "MessageIntegritySha256") =>
               ("MessageIntegritySha256" \in DOMAIN o.ref_ok /\ o.ref_ok.MessageIntegritySha256)
         /\ (o.dec = "ok") => o.validates
 OkC10(o) ==
-    (o.enc = "ok" /\ ~o.big) =>
+    (o.enc = "ok") =>
         /\ HasKind(o, "Fingerprint") => ("Fingerprint" \in DOMAIN o.ref_ok /\ o.ref_ok.Fingerprint)
         /\ (o.dec = "ok") => o.validates
 
